@@ -832,7 +832,7 @@ C18Case(P, sh) ==
 (* top-level message.                                                      *)
 (***************************************************************************)
 Constructs == {"kinds", "wkt", "wkt2", "int64num", "enumcustom", "enumnum", "nullable", "empty", "ts", "bytes", "oneof", "oneofflat", "flatten",
-               "flattenprefix", "unwraplist", "unwrapmap", "multiword", "int64rep", "plain", "required", "oneofplus", "explicit", "flattentwice", "bytesrules", "oneofscalars", "unwrapmapplus", "unwrapsiblings", "unwrapnames", "unwraprootname", "flattennullable", "oneofmultiword"}
+               "flattenprefix", "unwraplist", "unwrapmap", "multiword", "int64rep", "plain", "required", "oneofplus", "explicit", "flattentwice", "bytesrules", "oneofscalars", "unwrapmapplus", "unwrapsiblings", "unwrapnames", "unwraprootname", "flattennullable", "oneofmultiword", "emptywkt", "nullablevalue"}
 \* the annotated message A (and the helper messages it needs)
 ConstructMsgs(P, c) ==
   LET a(fs) == Msg("A", FN(P, "A"), fs)
@@ -856,6 +856,17 @@ ConstructMsgs(P, c) ==
        [] c = "oneofmultiword" -> <<MsgO("A", FN(P, "A"), <<F("k", "k", 1, "string", "one"), InOneof(FRef("credit_card", "creditCard", 2, "message", "one", ch), "o"),
                                      InOneof(F("voucher_code", "voucherCode", 3, "string", "one"), "o"),
                                      InOneof(FRef("bank_transfer", "bankTransfer", 4, "message", "one", c2), "o")>>, <<Oneof("o", TRUE, "kind", FALSE)>>)>>
+       \* empty_behavior on children that are well-known types: "empty" is proto.Size() = 0, i.e. the type's default
+       \* ("1970-01-01T00:00:00Z", "0s", "", 0 on the wire when PRESERVEd), not "renders as {}"
+       [] c = "emptywkt"   -> <<a(<<Ann(FRef("t", "t", 1, "message", "one", TS), "empty", "NULL"),
+                                   Ann(FRef("d", "d", 2, "message", "one", "google.protobuf.Duration"), "empty", "OMIT"),
+                                   Ann(FRef("sv", "sv", 3, "message", "one", "google.protobuf.StringValue"), "empty", "NULL"),
+                                   Ann(FRef("iv", "iv", 4, "message", "opt", "google.protobuf.Int32Value"), "empty", "OMIT"),
+                                   FRef("pt", "pt", 5, "message", "one", TS), F("k", "k", 6, "string", "one")>>)>>
+       \* a nullable field next to fields for which JSON null is a VALUE (google.protobuf.Value) or may contain one
+       [] c = "nullablevalue" -> <<a(<<Ann(F("s", "s", 1, "string", "opt"), "nullable", TRUE),
+                                      FRef("extra", "extra", 2, "message", "one", "google.protobuf.Value"),
+                                      FRef("lv", "lv", 3, "message", "one", "google.protobuf.ListValue"), F("k", "k", 4, "string", "one")>>)>>
        [] c = "oneofflat"  -> <<MsgO("A", FN(P, "A"), <<F("k", "k", 1, "string", "one"), InOneof(FRef("a", "a", 2, "message", "one", ch), "o"),
                                      InOneof(FRef("b", "b", 3, "message", "one", c2), "o")>>, <<Oneof("o", TRUE, "type", TRUE)>>)>>
        [] c = "flatten"    -> <<a(<<F("k", "k", 1, "string", "one"), Ann(FRef("c", "c", 2, "message", "one", ch), "flatten", TRUE)>>)>>
@@ -928,7 +939,7 @@ ConstructMsgs(P, c) ==
        [] c = "plain"      -> <<a(<<F("s", "s", 1, "string", "one"), F("n", "n", 2, "int64", "one"), FRef("c", "c", 3, "message", "one", ch),
                                    FRef("e", "e", 4, "enum", "one", FN(P, "P")), F("b", "b", 5, "bytes", "one"), F("f", "f", 6, "double", "one"),
                                    FMap("m", "m", 7, "int32", "string", ""), F("r", "r", 8, "bool", "rep")>>)>>
-Contexts == {"top", "child", "rep", "mapv", "oneofvar", "flatchild", "discvar", "unwrapsib", "nesteddecl", "nesteddecl_flat", "nesteddecl_top"}
+Contexts == {"top", "child", "rep", "mapv", "oneofvar", "flatchild", "discvar", "unwrapsib", "nesteddecl", "nesteddecl_flat", "nesteddecl_top", "splitfiles"}
 \* the top-level message W holding A in a context (for "top", the RPC message is A itself)
 ContextMsgs(P, cx) ==
   LET an == FN(P, "A")
@@ -942,7 +953,7 @@ ContextMsgs(P, cx) ==
        [] cx = "flatchild" -> <<w(<<F("zz", "zz", 1, "string", "one"), Ann(FRef("a", "a", 2, "message", "one", an), "flatten", TRUE)>>)>>
        [] cx = "discvar"   -> <<MsgO("W", FN(P, "W"), <<InOneof(FRef("a", "a", 1, "message", "one", an), "o"), InOneof(FRef("b", "b", 2, "message", "one", FN(P, "Child2")), "o")>>,
                                       <<Oneof("o", TRUE, "kind", FALSE)>>)>>
-       [] cx \in {"nesteddecl", "nesteddecl_flat", "nesteddecl_top"} -> <<>>   \* (built in C05Case: A is DECLARED inside W)
+       [] cx \in {"nesteddecl", "nesteddecl_flat", "nesteddecl_top", "splitfiles"} -> <<>>   \* (built in C05Case: A is DECLARED inside W)
        [] cx = "unwrapsib" -> <<Msg("UL", FN(P, "UL"), <<Ann(FRef("vals", "vals", 1, "message", "rep", FN(P, "Child")), "unwrap", TRUE)>>),
                                 w(<<FMap("by_key", "byKey", 1, "string", "message", FN(P, "UL")), FRef("a", "a", 2, "message", "one", an)>>)>>
 \* the construct's messages in their context; in the "nesteddecl" contexts the subject message A is a nested
@@ -958,7 +969,20 @@ C05Msgs(P, c, cx) ==
                            <<F("zz", "zz", 1, "string", "one")>> \o
                            (IF cx = "nesteddecl_top" THEN <<>> ELSE <<IF cx = "nesteddecl_flat" THEN Ann(ref, "flatten", TRUE) ELSE ref>>),
                            <<[aMsg EXCEPT !.full = nfull]>>)>>
+\* "splitfiles": the subject message A and the service in one file, every other message of the construct
+\* (wrappers, children, enums) in a sibling file of the package - and every plugin invoked once per file
+C05Split(P, c) ==
+  LET cm == ConstructMsgs(P, c)
+      others == SelectSeq(cm, LAMBDA m : m.name # "A")
+      aMsg == SelectSeq(cm, LAMBDA m : m.name = "A")
+      top == FN(P, "A")
+  IN Schema(<<File(P \o "/parts.proto", Pkg(P), GoPkg(P), TRUE, <<>>, <<>>, <<Child(P), Child2(P)>> \o others, <<EnumE, EnumPlain>>),
+              File(P \o "/svc.proto", Pkg(P), GoPkg(P), TRUE, <<P \o "/parts.proto">>,
+                   <<Service("Early", TRUE, Parts(TRUE, <<Lit("early")>>, FALSE), <<Method("Peek", top, top, TRUE, Parts(TRUE, <<Lit("peek")>>, FALSE), "POST")>>),
+                     Svc(P, <<Method("Do", top, top, TRUE, Parts(TRUE, <<Lit("do")>>, FALSE), "POST")>>)>>,
+                   aMsg, <<>>)>>)
 C05Case(P, c, cx) ==
+  IF cx = "splitfiles" THEN C05Split(P, c) ELSE
   LET top == IF cx = "top" THEN FN(P, "A") ELSE IF cx = "nesteddecl_top" THEN FN(P, "W") \o ".A" ELSE FN(P, "W")
   \* (a second service, declared first, reaches the same message: the document of the service under test
   \* is then not the first one the OpenAPI plugin writes in the run, and must be complete all the same)
